@@ -270,6 +270,7 @@ def run(ctx, rep):
     # move detection by inode is only sound while the recorded inodes are still meaningful: the site that discards them before a
     # scan and the site that decides whether a found inode is trusted must look at the same disk conditions
     inode_trust_rule(P, rep, 'R-C19-8')
+    guessed_hash_not_saved_rule(P, rep, 'R-C19-9')
 
 
 def inode_trust_rule(P, rep, rid):
@@ -354,3 +355,21 @@ def inode_trust_rule(P, rep, rid):
     rep.check(bad is None, rid, 'scan_file and %s agree on when recorded inodes are not trusted' % base(where.name), where.file,
               'agree on all %d assignments of %s' % (2 ** len(atoms), atoms) if bad is None else bad + ': stale inode numbers stay in the inode set while scan_file still uses them (or the reverse), an unrelated new file that reuses an inode is taken for a moved file and never read',
               function=base(where.name), construct='inode trust conditions')
+
+
+def guessed_hash_not_saved_rule(P, rep, rid):
+    """copy detection gives a new file the hashes of another file with the same name, size and time-stamp and marks the file
+    FILE_IS_COPY; the hashes are a guess until sync has read the file.  The mark lives only in memory.  Whatever is written to the
+    content file is trusted by later commands (fix takes a REP hash as the hash of the data the file must have, dup as proof of
+    equality), so the writer must not save a guessed hash as a real one: the function that writes the block records consults the
+    mark.  Decided structurally: the writer reads FILE_IS_COPY (the only way to tell a guessed REP hash from a computed one)."""
+    w = P.fn('state_write_thread') if P.has('state_write_thread') else P.fn('state_write_content')
+    rep.analysed(w)
+    rep.rule(rid, 'the content writer tells guessed hashes (FILE_IS_COPY) from computed ones before saving a REP block', 1)
+    COPY = 0x40
+    fl = [c for c in w.calls('file_flag_has') if w.const_of(c.ops[1]) == COPY]
+    # the mark may also be cleared / the block downgraded before the save, in the functions that save while a sync is pending
+    ok = bool(fl)
+    rep.check(ok, rid, 'state_write_thread distinguishes the hashes copied by the copy detection', w.file,
+              '%d test(s) of FILE_IS_COPY in the writer' % len(fl) if ok else 'the writer saves the hash of every REP block as it is; it never looks at FILE_IS_COPY, the only record that a REP hash was copied from another file and not computed: after a sync that stopped before verifying the copy (mismatch reported, -B range, interruption) fix "recovers" the intact new file with the other file\'s bytes and dup lists the two as duplicates',
+              function='state_write_thread', construct='guessed hash saved as computed')
